@@ -1,5 +1,5 @@
 # C17 — a running acquisition is free of data races
-CLAIMED = False
+CLAIMED = True
 NOT_YET = "check under construction (nothing is claimed for it yet)"
 
 CFG = dict(
